@@ -62,12 +62,16 @@ Damage == /\ Scope = "damage" /\ phase = 1 /\ phase' = 2 /\ UNCHANGED sc
 VarScale == { [shape |-> sh, n |-> k] : sh \in {"many-vars", "many-vars-read", "many-vars-in-block"}, k \in {239, 240, 241, 242, 243, 245, 255, 256, 257, 300} }
               \cup { [shape |-> sh, n |-> k] : sh \in {"vars-distinct", "vars-distinct-end"}, k \in (1..40) \cup {239, 240, 241, 242, 243, 256, 257} }   \* every operand value incl. those equal to opcode numbers; -end: the scope ends right after a declaration
               \cup { [shape |-> "same-print", n |-> k] : k \in 0..5 }          \* constants of different kinds with the same printed form
+\* blocks nested to every supported depth, with more blocks opened afterwards (a sibling at every level on the way out, a second
+\* descent, a toplevel block): the limit is on the blocks open at one time, not on how deep the program has been before
+BlockScale == { [shape |-> sh, n |-> k] : sh \in {"nested-def-then", "nested-def-twice"}, k \in {1, 2, 3, 8, 14, 15, 16, 17} }
 \* short-circuit jumps across the one-byte boundary of the 16-bit operand, taken and not taken
 JumpScale == { [shape |-> sh, n |-> k] : sh \in {"long-and", "long-or", "long-and-nt", "long-or-nt"}, k \in {10, 200, 250, 254, 255, 256, 257, 258, 260, 300, 510, 512, 514, 1000, 4000} }
 PickScale == /\ phase = 0 /\ phase' = 1 /\ UNCHANGED bs
              /\ \/ Scope = "scale" /\ \E c \in ScaleCases : sc' = c
                 \/ Scope = "varscale" /\ \E c \in VarScale : sc' = c
                 \/ Scope = "jumps" /\ \E c \in JumpScale : sc' = c
+                \/ Scope = "blockscale" /\ \E c \in BlockScale : sc' = c
 Next == Grow \/ PickLit \/ PickBase \/ Damage \/ PickScale
 Spec == Init /\ [][Next]_vars
 \* what the language says about the jump-distance shapes: the short-circuit jump spans 2 + 2m bytes for m = (n - 2) \div 2 added terms;
@@ -76,16 +80,27 @@ JumpSpan(n) == 2 + 2 * ((n - 2) \div 2)
 \* many-vars-read / -in-block declare v_i = i mod 7 and print v_0 + v_(n-1); vars-distinct declares v_i = 100 + i and prints v_0 + v_(n-1);
 \* the -nt jump shapes do not take the jump and print the right operand: 1 + m
 Dec(n) == LET RECURSIVE D(_) D(k) == IF k < 10 THEN <<48 + k>> ELSE Append(D(k \div 10), 48 + (k % 10)) IN D(n)
+RECURSIVE Lines(_, _)
+Lines(from, to) == IF from > to THEN <<>> ELSE Dec(from) \o <<10>> \o Lines(from + 1, to)
+RECURSIVE Zeros(_)
+Zeros(k) == IF k = 0 THEN <<>> ELSE <<48, 10>> \o Zeros(k - 1)
+\* a sibling child is possible at depth d only if d + 1 <= limit
+BlockOut(c) == LET down == Lines(1, c.n)
+                   sib == Zeros(IF c.n < Limits.block THEN c.n ELSE c.n - 1)
+               IN IF c.shape = "nested-def-then" THEN down \o sib \o <<55>> ELSE down \o down \o <<55>>
 ExpectOf(c) == CASE c.shape \in {"long-and", "long-or"} ->
                       (IF JumpSpan(c.n) > Limits.jump THEN <<99>> ELSE IF c.shape = "long-and" THEN <<48>> ELSE <<49>>)      \* <<99>> = "c": compile error
                  [] c.shape \in {"long-and-nt", "long-or-nt"} -> (IF JumpSpan(c.n) > Limits.jump THEN <<99>> ELSE Dec(1 + ((c.n - 2) \div 2)))
                  [] c.shape \in {"many-vars-read", "many-vars-in-block"} -> (IF c.n + 2 > Limits.stack THEN <<>> ELSE Dec((c.n - 1) % 7))   \* the two operands need two more slots
                  [] c.shape = "vars-distinct" -> Dec(200 + (c.n - 1))
+                 \* every block prints its depth on the way in; "then": each level opens one more sibling child (printing 0) before it closes,
+                 \* then a toplevel block prints 7; "twice": the whole descent is made a second time. Beyond the limit: a runtime error.
+                 [] c.shape \in {"nested-def-then", "nested-def-twice"} -> (IF c.n > Limits.block THEN <<114>> ELSE BlockOut(c))      \* <<114>> = "r": runtime error
                  [] OTHER -> <<>>
 \* where the "jump too long" diagnostic belongs: just after the last token of the over-long right operand, the ')' that closes it:
 \* print 0 and (1+1+...+1)  -- 13 bytes before the operand, 2m+1 bytes of operand, then ')'
 DiagCol(c) == IF c.shape \in {"long-and", "long-or", "long-and-nt", "long-or-nt"} /\ JumpSpan(c.n) > Limits.jump
               THEN (IF c.shape \in {"long-or", "long-or-nt"} THEN 12 ELSE 13) + (2 * ((c.n - 2) \div 2) + 1) + 1 + 1 ELSE 0
 Emit == (Scope = "bytes" \/ phase >= 1) =>
-        PrintT(<<"CASE", ToJson([fam |-> "total", src |-> bs, shape |-> sc.shape, n |-> sc.n, expect |-> ExpectOf(sc), dcol |-> DiagCol(sc), nt |-> (Len(bs) >= 2 \/ Scope \in {"scale", "varscale", "jumps"})])>>)
+        PrintT(<<"CASE", ToJson([fam |-> "total", src |-> bs, shape |-> sc.shape, n |-> sc.n, expect |-> ExpectOf(sc), dcol |-> DiagCol(sc), nt |-> (Len(bs) >= 2 \/ Scope \in {"scale", "varscale", "jumps", "blockscale"})])>>)
 ====
